@@ -680,6 +680,7 @@ def run(ctx):
                 "values of different CEL types inside containers (those are UNSPEC, counted, not compared with the reference; their == must still answer alike in both operand orders and != be its negation). Each observed matrix is then "
                 "checked against the coherence laws over every pair and every triple (bit-set row inclusion = the triple loop).")
     ctx.assumptions = ["values outside the alphabets are not explored",
+                       "timestamps are built by the library's own constructors from RFC 3339 text or integer fields and carry UTC or a fixed whole-minute offset; host-supplied datetimes carrying other tzinfo objects (ZoneInfo zones at DST folds, offsets with seconds) are not explored",
                        "`>=` is judged as the mirror of `<=` (the statement names only < > <= ==)",
                        "operands are constructed from datetime/timedelta objects (bound paths) or spelled with timestamp()/duration() (literal path); a value "
                        "that does not arrive as the intended plain value is excluded (premise_failed_values) - conversion is C11/C12's concern",
